@@ -1,6 +1,7 @@
 package c05
 
 import (
+	"bytes"
 	"fmt"
 	"strings"
 	"time"
@@ -33,6 +34,9 @@ type magent struct {
 	done   []mtask
 	queue  int
 	active bool
+	relays int    // relay jobs (request id 0) queued so far for this agent: they make nothing outstanding
+	order  []byte // relay jobs and outstanding tasks in the order they were queued (the order of the bookkeeping list): r/t queued, R/T handed out, x/y taken off the queue by a clear
+	clears int    // "task clear" commands so far (what a clear did to the bookkeeping is not visible in the model: kept in the key)
 }
 
 type model struct {
@@ -57,6 +61,17 @@ func (a *magent) find(id uint32) int {
 
 func (a *magent) complete(id uint32) {
 	if i := a.find(id); i >= 0 {
+		// drop the i-th 'T' of the order
+		n := -1
+		for k, c := range a.order {
+			if c == 'T' || c == 't' || c == 'y' {
+				n++
+				if n == i {
+					a.order = append(append([]byte{}, a.order[:k]...), a.order[k+1:]...)
+					break
+				}
+			}
+		}
 		a.done = append(a.done, a.out[i])
 		a.out = append(append([]mtask{}, a.out[:i]...), a.out[i+1:]...)
 	}
@@ -73,6 +88,8 @@ const (
 	opIssue = iota
 	opHandout
 	opCallback
+	opRelay // a relay job (socks / port-forward traffic, request id 0) is queued for the agent
+	opClear // the operator's "task clear"
 )
 
 const (
@@ -101,11 +118,16 @@ func (o op) String() string {
 		return fmt.Sprintf("issue(%s,%s)", agents[o.x].name, kinds[o.kind].name)
 	case opHandout:
 		return fmt.Sprintf("hand-out(%s)", agents[o.x].name)
+	case opRelay:
+		return fmt.Sprintf("relay-job(%s)", agents[o.x].name)
+	case opClear:
+		return fmt.Sprintf("task-clear(%s)", agents[o.x].name)
 	}
 	return fmt.Sprintf("callback(%s,id=%s,%s)", agents[o.x].name, rselName[o.rsel], className[o.csel])
 }
 
 type shard struct {
+	edits    bool // the queue-edit alphabet (one agent: issue, hand-out, relay job, task clear, final / output callbacks)
 	focus    int
 	sendLogs bool
 	kindsOf  [2][]int // task kinds each agent may be issued
@@ -115,6 +137,16 @@ type shard struct {
 }
 
 func (s *shard) build() {
+	if s.edits {
+		s.kindsOf[0] = []int{s.focus}
+		s.alpha = append(s.alpha, op{typ: opIssue, x: 0, kind: s.focus}, op{typ: opHandout, x: 0}, op{typ: opRelay, x: 0}, op{typ: opClear, x: 0})
+		for _, rs := range []int{rOutFirst, rOutLast, rDone} {
+			for _, c := range []int{cFinal, cOutput} {
+				s.alpha = append(s.alpha, op{typ: opCallback, x: 0, rsel: rs, csel: c})
+			}
+		}
+		return
+	}
 	second := kSleep
 	if s.focus == kSleep {
 		second = kCd
@@ -185,6 +217,14 @@ func (s *shard) enabled(m *model) []int {
 			if m.ag[o.x].queue > 0 {
 				en = append(en, i)
 			}
+		case opClear:
+			if m.ag[o.x].queue > 0 && m.ag[o.x].clears < 1 {
+				en = append(en, i)
+			}
+		case opRelay:
+			if m.ag[o.x].relays < 2 {
+				en = append(en, i)
+			}
 		case opCallback:
 			t, ok := s.pick(m, o.x, o.rsel)
 			if !ok {
@@ -223,7 +263,7 @@ func (m *model) key() string {
 		if q > 1 {
 			q = 2
 		}
-		fmt.Fprintf(&b, "|q%d|%v;", q, a.active)
+		fmt.Fprintf(&b, "|q%d|%v|r%d|c%d|%s;", q, a.active, a.relays, a.clears, a.order)
 	}
 	return b.String()
 }
@@ -272,6 +312,9 @@ func (s *shard) apply(w *world, m *model, o op, check bool) (res stepOut) {
 		}
 		a.out = append(a.out, mtask{id, o.kind})
 		a.queue++
+		if s.edits {
+			a.order = append(append([]byte{}, a.order...), 't')
+		}
 		res.outcome = "issue/" + kd.name
 		return
 
@@ -285,6 +328,31 @@ func (s *shard) apply(w *world, m *model, o op, check bool) (res stepOut) {
 			res.outcome = fmt.Sprintf("hand-out/%d", len(tasks))
 		}
 		a.queue = 0
+		a.order = bytes.ReplaceAll(bytes.ReplaceAll(a.order, []byte("r"), []byte("R")), []byte("t"), []byte("T"))
+		return
+
+	case opRelay:
+		// what the relay goroutines do with data that arrives for the agent
+		w.curValid = false
+		w.ag[x].AddJobToQueue(agent.Job{Command: agent.COMMAND_SOCKET, Data: []any{agent.SOCKET_COMMAND_CLOSE, 0x77}})
+		a.queue++
+		a.relays++
+		a.order = append(append([]byte{}, a.order...), 'r')
+		res.outcome = "relay-job"
+		return
+
+	case opClear:
+		// queued jobs go; what was issued stays issued (nothing answers it, nothing completes it)
+		m.next++
+		w.curValid = false
+		if p := w.ts.Task(agents[x].id, fmt.Sprintf("%08x", m.next), 0, map[string]any{"CommandID": "Teamserver", "Command": "task::clear"}); p != nil {
+			res.bad = fmt.Sprintf("task clear panicked: %v", p)
+			return
+		}
+		a.queue = 0
+		a.clears++
+		a.order = bytes.ReplaceAll(bytes.ReplaceAll(a.order, []byte("r"), []byte("x")), []byte("t"), []byte("y"))
+		res.outcome = "task-clear"
 		return
 	}
 
@@ -489,8 +557,12 @@ func (s *shard) run(r *ev.Run, w *world, deadline time.Time) {
 	})
 	r.AddStates(b.States, b.Transitions, b.Transitions)
 	tag := fmt.Sprintf("bfs/%s/sendlogs=%v/caps=%d,%d", kinds[s.focus].name, s.sendLogs, s.capOut[0], s.capOut[1])
+	if s.edits {
+		tag = "bfs-queue-edits/" + tag[4:]
+	}
 	r.Extra[tag] = map[string]any{"states": b.States, "transitions": b.Transitions, "depth_completed": b.Depth, "fixpoint": b.Fixpoint, "replays_from_reset": b.Transitions - reused, "applied_in_place": reused}
 	if b.Capped {
 		r.NotExhaustive(fmt.Sprintf("%s: history search stopped by the internal deadline after depth %d of %d", tag, b.Depth, s.depth))
 	}
 }
+
